@@ -75,14 +75,14 @@ def program(ctx, e, extra_funcs=(), pre=""):
     elif ctx == "cond-for":
         body = "(for ((decl 0 0 long %d 0)) %s ((asg (v %d) (bin + (v %d) 1))) ((print 1 (v %d)) (if (bin >= (v %d) 1) ((break)) ())))" % (x, e, x, x, x, x)
     elif ctx == "index":
-        body = "(print 1 (idx %d (bin & %s 3)))" % (V_ARR, e)
+        body = "(decl 0 0 long %d (bin + (idx %d (bin & %s 3)) 0)) (print 1 (v %d))" % (x, V_ARR, e, x)
     elif ctx == "index-store":
         body = "(asg (idx %d (bin & %s 3)) 99) (print 1 (idx %d 0) (idx %d 1) (idx %d 2) (idx %d 3))" % (V_ARR, e, V_ARR, V_ARR, V_ARR, V_ARR)
     elif ctx == "arg":
-        body = "(print 1 (call %d %s))" % (F_ID, e)
+        body = "(decl 0 0 long %d (call %d %s)) (print 1 (v %d))" % (x, F_ID, e, x)
     elif ctx == "ret":
         funcs.append("(F %d long () ((ret %s)))" % (F_RET, e))
-        body = "(print 1 (call %d))" % F_RET
+        body = "(decl 0 0 long %d (call %d)) (print 1 (v %d))" % (x, F_RET, x)
     elif ctx == "print":
         body = "(print 1 %s)" % e
     elif ctx == "print2":
